@@ -15,11 +15,11 @@ ASSUME BytesToHex(PointEncode("P256", "DO_NOT_USE_CRUNCHY_UNCOMPRESSED", G("P256
 
 \* every format decodes what it encodes, with the documented sizes; 2G has the other parity on P-256
 Two(c) == Zeros(FieldLen(c) - 1) \o <<2>>
-ASSUME \A c \in Curves, f \in PointFormats : \A k \in {One(c), Two(c)} :
+ASSUME \A c \in EciesCurves, f \in EciesPointFormats : \A k \in {One(c), Two(c)} :
          LET p == ECPublic(c, k) IN /\ Len(PointEncode(c, f, p)) = EncSize(c, f)
                                     /\ PointDecode(c, f, PointEncode(c, f, p)) = <<TRUE, p>>
 \* rejected: wrong length, wrong leading octet, point off the curve, x >= p
-ASSUME \A c \in Curves, f \in PointFormats :
+ASSUME \A c \in EciesCurves, f \in EciesPointFormats :
          LET e == PointEncode(c, f, G(c)) IN
            /\ ~PointDecode(c, f, Take(e, Len(e) - 1))[1]
            /\ ~PointDecode(c, f, e \o <<0>>)[1]
@@ -32,7 +32,7 @@ ASSUME ~PointDecode("P256", "UNCOMPRESSED", <<4>> \o Zeros(64))[1]
 Cfg(c, h, f, d, s) == [curve |-> c, hash |-> h, fmt |-> f, dem |-> d, salt |-> s]
 Sk(c) == Zeros(FieldLen(c) - 2) \o <<7, 9>>
 Msg == StrToBytes("hybrid encryption")
-ASSUME \A d \in DEMs, f \in PointFormats :
+ASSUME \A d \in EciesDEMs, f \in EciesPointFormats :
          LET cfg == Cfg("P256", "SHA256", f, d, <<1, 2, 3>>)
              ct  == EciesEncrypt(cfg, ECPublic("P256", Sk("P256")), Two("P256"), Rep(5, DemIVLen(d)), <<9>>, Msg)
          IN /\ ct[1] /\ EciesDecrypt(cfg, Sk("P256"), ct[2], <<9>>) = <<TRUE, Msg>>
